@@ -56,6 +56,18 @@ fn check(t: &mut Tape, ctx: &mut Ctx) -> CheckResult {
         ctx.sub("native-path-refuses-pending");
         ensure!(ctx, try_define_map_arrow(&functor, &l).is_none(), "native-path-refuses-pending", "try_define_map_arrow returned a diagram for an input with a pending unification");
         ensure!(ctx, map_arrow_witness(&functor, &l).is_none(), "native-path-refuses-pending", "map_arrow_witness returned a result for an input with a pending unification");
+        // a diagram whose pending pair joins two differently labelled nodes still has a pending
+        // unification after a quotient attempt has failed on it: the refusal must not depend on history
+        let others: Vec<usize> = (0..n).filter(|&v| d.nodes[v] != d.nodes[a]).collect();
+        if !others.is_empty() {
+            let c = *t.pick(&others);
+            let mut l2 = to_lax(&Lax { d: d.clone(), q: vec![(a, c)] });
+            ctx.set_dump(format!("{}
+second input: pending pair ({a},{c}) with different labels, after a failed quotient()", ctx.dump));
+            ensure!(ctx, l2.quotient().is_err(), "native-path-refuses-pending", "quotient succeeded on a pair of differently labelled nodes");
+            ensure!(ctx, try_define_map_arrow(&functor, &l2).is_none() && map_arrow_witness(&functor, &l2).is_none(), "native-path-refuses-pending", "after a failed quotient the native path accepts a diagram that still has its pending unification");
+            ctx.class("refusal-after-failed-quotient");
+        }
         ctx.nontrivial(&(&d, a, b, "refusal"));
         return Ok(());
     }
